@@ -98,6 +98,16 @@ def definitional(rng):
     out.append(("longstring", head + "let f () =\n  \"" + "x" * 200000 + "\"\n"))
     out.append(("longident", head + "let " + "f" * 100000 + " () =\n  1\n"))
     out.append(("binary", bytes(range(256)).decode("latin1")))
+    # long chains of type definitions in which every type mentions the next one several times (a traversal that re-expands a shared
+    # type once per path needs 2^depth steps)
+    for depth in (12, 40):
+        # (the innermost type first: a type must be defined before it is mentioned)
+        u = "type U%d =\n| Z\n\n" % depth + "".join("type U%d =\n| A%d of U%d\n| B%d of U%d\n| C%d\n\n" % (i, i, i + 1, i, i + 1, i) for i in reversed(range(depth)))
+        out.append(("unionchain%d" % depth, head + u + "let f (x:U0) =\n  match x with\n  | A0 _ -> 1\n  | _ -> 0\n\nlet g (x:U0) (y:U1) =\n  (x, y)\n"))
+        r = "type R%d = {Z: int}\n\n" % depth + "".join("type R%d = {L%d: []R%d; M%d: []R%d; N%d: int}\n\n" % (i, i, i + 1, i, i + 1, i) for i in reversed(range(depth)))
+        out.append(("recordchain%d" % depth, head + r + "let f (x:R0) =\n  x.N0\n\nlet g (x:R0) (y:R1) =\n  (x, y)\n"))
+        m = "type M%d =\n| Z\n\n" % depth + "".join("type M%d =\n| P%d of N%d\n| Q%d of N%d\n| E%d\nand N%d = {X%d: M%d; Y%d: []M%d}\n\n" % (i, i, i, i, i, i, i, i, i + 1, i, i + 1) for i in reversed(range(depth)))
+        out.append(("mixedchain%d" % depth, head + m + "let f (x:M0) =\n  match x with\n  | E0 -> 0\n  | _ -> 1\n"))
     return out
 
 
